@@ -63,14 +63,17 @@ UNIT4 = [("psd_tools.psd.patterns", "Patterns", ("read", "write")),
          ("psd_tools.psd.patterns", "Pattern", ("read", "write")),
          ("psd_tools.psd.patterns", "VirtualMemoryArrayList", ("read", "write", "_write_body")),
          ("psd_tools.psd.patterns", "VirtualMemoryArray", ("read", "write", "_write_body"))]
-UNITS = {"unit1": UNIT1, "unit2": UNIT2, "unit3": UNIT3, "unit4": UNIT4}
+UNIT5 = [("psd_tools.psd.linked_layer", "LinkedLayers", ("read", "write")),
+         ("psd_tools.psd.linked_layer", "LinkedLayer", ("read", "write"))]
+UNITS = {"unit1": UNIT1, "unit2": UNIT2, "unit3": UNIT3, "unit4": UNIT4, "unit5": UNIT5}
 # classes a registry row is emitted for (tagged_blocks.TYPES: key -> class name)
 REGISTRY_CLASSES = {"unit2": ["EmptyElement", "IntegerElement", "ShortIntegerElement", "ByteElement", "StringElement", "Bytes",
                               "ProtectedSetting", "SheetColorSetting", "ReferencePoint", "SectionDividerSetting", "UserMask",
                               "FilterMask", "ChannelBlendingRestrictionsSetting", "MetadataSettings", "PixelSourceData2",
                               "Annotations"],
                     "unit3": ["EffectsLayer"],
-                    "unit4": ["Patterns"]}
+                    "unit4": ["Patterns"],
+                    "unit5": ["LinkedLayers"]}
 
 
 def _s(x: str) -> str:
@@ -369,6 +372,35 @@ def gen_payload(ctx):
     parts.append(f"/-- `ColorMode.INDEXED` -/\ndef colorModeIndexed : Nat := {indexed}\n"
                  "/-- the tests of the `if` statements of read / write of Pattern and VirtualMemoryArray -/\n"
                  f"def patternConditions : List (String × String × String) := {rows4(conds4)}\n")
+    # ---- unit 5
+    t5 = {"types": [], "data": b"", "external": b"", "alias": b"", "vmin": 4294967295, "vmax": 0}
+    try:
+        C = importlib.import_module("psd_tools.constants")
+        LT = C.LinkedLayerType
+        t5["types"] = sorted(bytes(m.value) for m in LT)
+        t5["data"], t5["external"], t5["alias"] = bytes(LT.DATA.value), bytes(LT.EXTERNAL.value), bytes(LT.ALIAS.value)
+    except Exception:  # noqa
+        notes.append("constants.LinkedLayerType not readable: generated as empty")
+    try:
+        import attr
+        LL = importlib.import_module("psd_tools.psd.linked_layer").LinkedLayer
+        v = {a.name: a for a in attr.fields(LL)}["version"].validator
+        t5["vmin"], t5["vmax"] = int(v.minimum), int(v.maximum)
+    except Exception:  # noqa
+        notes.append("LinkedLayer.version: no range_ validator found: generated as the empty range")
+    conds5 = []
+    for mn in ("read", "write"):
+        try:
+            conds5.append(("LinkedLayer", mn, "; ".join(_conditions("psd_tools.psd.linked_layer", "LinkedLayer", mn, notes))))
+        except Exception:  # noqa
+            conds5.append(("LinkedLayer", mn, "<missing>"))
+    parts.append(f"/-- members of `constants.LinkedLayerType`, sorted -/\ndef linkedLayerTypes : List (List UInt8) := {bl(t5['types'])}\n"
+                 f"def linkedData : List UInt8 := {_bytes(t5['data'])}\ndef linkedExternal : List UInt8 := {_bytes(t5['external'])}\n"
+                 f"def linkedAlias : List UInt8 := {_bytes(t5['alias'])}\n"
+                 f"/-- `range_(min, max)` validator of `LinkedLayer.version` -/\ndef linkedVersionMin : Nat := {t5['vmin']}\n"
+                 f"def linkedVersionMax : Nat := {t5['vmax']}\n"
+                 "/-- the tests of the `if` statements of `LinkedLayer.read` / `write`, in source order -/\n"
+                 f"def linkedConditions : List (String × String × String) := {rows4(conds5)}\n")
     for unit, names in REGISTRY_CLASSES.items():
         try:
             rows = registry_rows(names, notes)
